@@ -1,7 +1,26 @@
-Check (C12_only_finish_can_panic : forall m o m' p, step m o = (m', RPanic p) -> o = FIN).
-Check (C12_queued_samples_are_never_empty : forall b script m0 ops, build b script = inl m0 -> NonEmptyInv (m_writer (fst (run m0 ops)))).
-Check (C12_finalize_does_not_panic : forall w v m fs p, NonEmptyInv w -> small_enough w -> snd (finalize w v m fs) <> FinErr (FinPanic p)).
-Check (C12_no_call_panics : forall b script m0 ops, build b script = inl m0 -> (forall k, small_enough (m_writer (fst (run m0 (firstn k ops))))) -> Forall (fun r => forall p, r <> RPanic p) (snd (run m0 ops))).
-Check (C12_fragmented_never_panics : forall m o, snd (fstep m o) <> FrPanic).
-Check (C12_movie_duration_overflow_panics : forall v vt audio c m, (18446744073709551615 < total_duration vt * 1000)%N -> moov_of v vt audio c m = inr PanicMovieDurationOverflow).
-Check (C12_zero_size_sample_would_panic : forall v vt c m, (total_duration vt * 1000 <= 18446744073709551615)%N -> has_zero_size vt = true -> moov_of v vt None c m = inr PanicStszZeroSize).
+Open Scope N_scope.
+Check (C12_only_finish_can_panic : (forall m o m' p, step m o = (m', RPanic p) -> o = FIN)%type).
+Check (C12_queued_samples_are_never_empty : (forall b script m0 ops,
+  build b script = inl m0 -> NonEmptyInv (m_writer (fst (run m0 ops))))%type).
+Check (C12_finalize_does_not_panic : (forall w v m fs p,
+  NonEmptyInv w -> small_enough w -> snd (finalize w v m fs) <> FinErr (FinPanic p))%type).
+Check (C12_no_call_panics : (forall b script m0 ops,
+  build b script = inl m0 ->
+  (forall k, small_enough (m_writer (fst (run m0 (firstn k ops))))) ->
+  Forall (fun r => forall p, r <> RPanic p) (snd (run m0 ops)))%type).
+Check (C12_fragmented_never_panics : (forall m o, snd (fstep m o) <> FrPanic)%type).
+Check (C12_movie_duration_overflow_panics : (forall v vt audio c m,
+  18446744073709551615 < total_duration vt * 1000 ->
+  moov_of v vt audio c m = inr PanicMovieDurationOverflow)%type).
+Check (C12_zero_size_sample_would_panic : (forall v vt c m,
+  total_duration vt * 1000 <= 18446744073709551615 -> has_zero_size vt = true ->
+  moov_of v vt None c m = inr PanicStszZeroSize)%type).
+Check (C12_validation_reports_through_its_result : ((forall c w h f, coherent (validate_video_config c w h f)) /\
+  (forall c sr ch, coherent (validate_audio_config c sr ch)) /\
+  (forall c d k, coherent (validate_video_frame c d k)) /\
+  (forall c d, coherent (validate_audio_frame c d)) /\
+  (forall v a, coherent (validate_muxing_config v a)))%type).
+Check (C12_accepted_adts_frame_validates : (forall p d raw,
+  bytes_ok d = true -> adts_to_raw d = AdtsOk raw -> vr_valid (validate_audio_frame (Aac p) d) = true)%type).
+Check (C12_opus_validation_is_the_muxers_check : (forall d,
+  vr_valid (validate_audio_frame Opus d) = is_valid_opus_packet d)%type).
